@@ -163,6 +163,19 @@ structure RunResult where
   out : Bytes
   st : Option St                -- final evaluator state when there is one (for `-o`)
 
+/-- what the nested evaluator of a selector does: convert the decoded value, bind it to `$`,
+    evaluate the expression, and hand out a cell of its own holding the selected value -/
+def selectorRun (rootValue : JVal) (expr : Expr) : EM CellId := do
+  let v ← newValueJson rootValue
+  let rootCell ← newCell v
+  modifySt fun st => { st with root := some rootCell, ruleRoot := some rootCell }
+  let cell ← evalExpr Program.empty evalFuel expr
+  -- a cell of its own holding the selected value, as `$ = expr` would store it
+  let root ← newCell .unknown
+  match (← copyValue cell root) with
+  | .error m => throwRt expr.token.pos m
+  | .ok c => pure c
+
 /-- `EvalExpression(exprSrc, rootValue, stdout)`: a nested evaluator without the program's
     functions, on its own conversion of the decoded value, sharing heap and output. -/
 def evalSelector (tbl : RuleTable) (sel : Bytes) (rootValue : JVal) (s : St) :
@@ -172,20 +185,10 @@ def evalSelector (tbl : RuleTable) (sel : Bytes) (rootValue : JVal) (s : St) :
   | .oof => .inl (.oof, s)
   | .ok expr =>
     let s0 := newEvaluator Program.empty s.heap s.out s.faults
-    let run : EM CellId := do
-      let v ← newValueJson rootValue
-      let rootCell ← newCell v
-      modifySt fun st => { st with root := some rootCell, ruleRoot := some rootCell }
-      let cell ← evalExpr Program.empty evalFuel expr
-      -- a cell of its own holding the selected value, as `$ = expr` would store it
-      let root ← newCell .unknown
-      match (← copyValue cell root) with
-      | .error m => throwRt expr.token.pos m
-      | .ok c => pure c
     let back (s1 : St) : St :=
       { s with heap := s1.heap, out := s1.out, faults := s1.faults, faultOut := s1.faultOut,
                maxDepth := max s.maxDepth s1.maxDepth }
-    match run s0 with
+    match selectorRun rootValue expr s0 with
     | .ok c s1 => .inr (.ok c, back s1)
     | .err (.sig .exit) s1 => .inr (.error .exit, back s1)
     | .err (.sig .next) s1 => .inr (.error .next, back s1)
@@ -284,22 +287,32 @@ def processFiles (src : Bytes) (tbl : RuleTable) (sels : List Bytes) : List Inpu
     | .done s' => processFiles src tbl sels rest s'
     | .finished o s' => .finished o s'
 
-/-- `EvalProgram(progSrc, files, rootSelectors, stdout, false)` after parsing -/
-def runProgram (src : Bytes) (tbl : RuleTable) (sels : List Bytes) (files : List InputFile) : RunResult :=
-  let s0 := newEvaluator prog Heap.empty [] 0
-  let fin (o : Outcome) (s : St) : RunResult := ⟨o, s.output, some s⟩
-  match evalSpecialRules prog (newCell (.nil none)) (rulesOf prog .begin_) s0 with
-  | .err e s => fin (errOutcome src e) s
+/-- a run that ended with outcome `o` in state `s` -/
+def finishRun (o : Outcome) (s : St) : RunResult := ⟨o, s.output, some s⟩
+
+/-- the END rules, after all input -/
+def runEnd (src : Bytes) (s2 : St) : RunResult :=
+  match evalSpecialRules prog (newCell (.nil none)) (rulesOf prog .end_) s2 with
+  | .err e s => finishRun (errOutcome src e) s
   | .oof => ⟨.oof, [], none⟩
-  | .ok .exit s => fin .ok s
-  | .ok .continue_ s1 =>
-    match processFiles prog src tbl sels files s1 with
-    | .finished o s => fin o s
-    | .done s2 =>
-      match evalSpecialRules prog (newCell (.nil none)) (rulesOf prog .end_) s2 with
-      | .err e s => fin (errOutcome src e) s
-      | .oof => ⟨.oof, [], none⟩
-      | .ok _ s => fin .ok s
+  | .ok _ s => finishRun .ok s
+
+/-- the input files, then the END rules unless the run is over -/
+def runFiles (src : Bytes) (tbl : RuleTable) (sels : List Bytes) (files : List InputFile) (s1 : St) :
+    RunResult :=
+  match processFiles prog src tbl sels files s1 with
+  | .finished o s => finishRun o s
+  | .done s2 => runEnd prog src s2
+
+/-- `EvalProgram(progSrc, files, rootSelectors, stdout, false)` after parsing: BEGIN rules, the
+    input, END rules -/
+def runProgram (src : Bytes) (tbl : RuleTable) (sels : List Bytes) (files : List InputFile) : RunResult :=
+  match evalSpecialRules prog (newCell (.nil none)) (rulesOf prog .begin_)
+      (newEvaluator prog Heap.empty [] 0) with
+  | .err e s => finishRun (errOutcome src e) s
+  | .oof => ⟨.oof, [], none⟩
+  | .ok .exit s => finishRun .ok s
+  | .ok .continue_ s1 => runFiles prog src tbl sels files s1
 
 /-- `EvalProgram` -/
 def evalProgram (tbl : RuleTable) (src : Bytes) (sels : List Bytes) (files : List InputFile) : RunResult :=
